@@ -15,7 +15,7 @@ CHECK = {
                             "motion_small_rotation", "motion_noisy", "corr_subset", "corr_permuted",
                             "second_problem_mirror_last_axis", "second_problem_new_targets_same_geometry", "normal_w_m1", "normal_w_0", "normal_w_p1", "accepted"],
     "required_oracles": ["structure.identity_plus_skew", "normal_equations", "normal_equations.precond",
-                         "recovers_pure_translation", "second_related_problem.normal_equations", "recovers_rotation_O(theta^2)", "variants_agree"],
+                         "recovers_pure_translation", "second_related_problem.normal_equations", "aliased_source_and_target", "recovers_rotation_O(theta^2)", "variants_agree"],
     "rule": "case = (dim 2/3, float/double, n=6..500 correspondences, unit normals {random, three-wall room, noisy room}, "
             "cloud radius 0.1..100, offset, motion {pure translation, small rotation <=0.1 rad, both, noisy}, translation up to "
             "the diameter, correspondences {identity, permuted, subset with distractors}, preconditioning scale 1e-3..1e3, "
